@@ -21,6 +21,7 @@ def run(ctx: Ctx) -> int:
                   "names": "generic function types with <= 3 parameters and <= 3 inference variables, display names from a pool with clashes (T, U, T), and <= 3 variables from the pool (T, T, T_1, T1, T_) whose members look like disambiguated names; each variable occurring once or twice"}
     ctx.outside_claim = ["function types as components (the statement excludes them)", "types deeper than the bound", "list[T] (experimental)", "types inside the region of the known finding (probed separately)"]
     ctx.assumptions = ["the printer and parser work on str / C-level ast objects: each explored path is one concrete type, the solver enumerates the selector space (stated, not hidden)"]
+    jobs.append(Job(H, "h_existential_mix", timeout=ctx.pick(200, 600), name="h_existential_mix[20 x 20 fresh type / constant variables]"))
     ctx.crosshair(jobs)
     return ctx.finish(
         level="model_checking",
